@@ -60,8 +60,9 @@ def gen_key():
          fk, "FunctionKey: non-node-set argument converted to a string")
     need(lit("const NodeRefListBase::size_type nRefs = theNodeSet.getLength(); if (nRefs == 1) { getNodeSet( executionContext, context, keyname, arg2->str(executionContext), locator, *theNodeRefList.get()); } else if (nRefs > 1) {"),
          fk, "FunctionKey: one-node shortcut, loop for more than one node")
-    loop = need(lit("for(NodeRefListBase::size_type i = 0; i < nRefs; i++) {") + "(.*?)" + lit("ref.clear(); }"), fk, "FunctionKey: loop over the argument nodes").group(1)
-    need(lit("DOMServices::getNodeData(*theNodeSet.item(i), executionContext, ref);"), loop, "FunctionKey: string-value of each argument node")
+    # the order in which the argument nodes are taken is not anchored (the union is ordered by insertion)
+    loop = need(r"for\([^{}]*\)\{(?:assert\([^;]*\);)?" + lit("DOMServices::getNodeData(*theNodeSet.item(i), executionContext, ref);") + "(.*?)" + lit("ref.clear(); }"),
+                fk, "FunctionKey: loop over the argument nodes").group(1)
     call = lit("getNodeSet( executionContext, context, keyname, ref, locator, *theNodeRefList.get());")
     if re.search(lit("if (0 != ref.length()) {") + call + lit("}"), loop):
         skip = True
